@@ -145,6 +145,7 @@ func genNested(t *rapid.T, shape string, nk, depth int) []Op {
 		case kind < 7:
 			op.K = "g"
 			op.Fail = rapid.IntRange(0, 5).Draw(t, "nestedFail") == 0
+			op.Err = genErr(t, op.Fail, "nestedErr")
 			op.Born = genBorn(t, shape, "nestedBorn")
 			op.Nil = genNil(t, shape, "nestedNil")
 			if depth < MaxDepth && nk > 2 && rapid.IntRange(0, 3).Draw(t, "deeper") == 0 {
@@ -171,6 +172,15 @@ func genBorn(t *rapid.T, shape, label string) int {
 		return b
 	}
 	return 0
+}
+
+// genErr draws Op.Err for a GetOrCreate whose create function fails: the shape of the error value it returns, all
+// shapes of errkinds.go alike (0 = a plain error, what shrinking leaves).
+func genErr(t *rapid.T, fail bool, label string) int {
+	if !fail {
+		return 0
+	}
+	return rapid.IntRange(0, NErrKinds-1).Draw(t, label)
 }
 
 // genNil draws Op.Nil for a GetOrCreate of the iface shape: two creations in five hand over a nil value (the nil interface
@@ -211,6 +221,7 @@ func genOps(t *rapid.T, shape string, nk, maxLen int, heavy bool) []Op {
 		switch {
 		case kind < gEnd:
 			op := Op{K: "g", Key: key, Var: vr, Buf: buf, Fail: rapid.IntRange(0, 5).Draw(t, "fail") == 0, Born: genBorn(t, shape, "born"), Nil: genNil(t, shape, "nil")}
+			op.Err = genErr(t, op.Fail, "err")
 			if nk > 1 && rapid.IntRange(0, 5).Draw(t, "reentrant") == 0 { // the create function uses the cache itself
 				op.Nested = genNested(t, shape, nk, 1)
 			}
